@@ -90,6 +90,7 @@ func C01(ctx *core.Ctx, r *core.Report) {
 	impliedCasePerNode(ctx, r)
 	c01SubmoduleMergeComplete(ctx, r)
 	c01AugmentUsesExpandedFirst(ctx, r)
+	c01CaseMembersIndexedInHolder(ctx, r)
 	c11InitializeMerges(ctx, r)
 	r.Count("instances:lost-update(read-modify-write of a field)", lostUpdate(ctx, r, scopeFuncs(ctx, "meta", "resolver.go", "compile.go", "builder.go", "core.go", "core_gen.go")))
 	r.Count("instances:textual-order-kept(sort calls examined)", textualOrderKept(ctx, r, scopeFuncs(ctx, "meta")))
